@@ -57,6 +57,14 @@ RULE = ("model: the heap/threshold/cache state machine checked against TopK for 
         "computes (indices up to ties); non-trivial = more than one candidate and (max_dist or use_lb or history > 1)")
 
 
+def _canary(rec):
+    for c in rec["calls"]:
+        if c["ans"] and c["ans"][0][0] >= 0 and not c["raised"]:
+            c["ans"][0][0] += 1
+            return rec
+    return None
+
+
 def judge(ctx, src, its):
     ctx.log("running %d search histories" % len(its))
     outs = core.pool_map(src, "harness.ssx", "run_c14", its, chunksize=20)
@@ -71,7 +79,7 @@ def judge(ctx, src, its):
         records.append(rec)
         ctx.evaluations += len(rec["routes"])
     ctx.log("Act T: TLC judges %d records (%d calls)" % (len(records), ctx.evaluations))
-    res = tlc.validate_traces("SSTrace", "SSTrace.cfg", records, chunk=100, parallel=14)
+    res = tlc.validate_traces("SSTrace", "SSTrace.cfg", records, chunk=100, parallel=14, canary_fields=[_canary])
     ctx.add_tv(res)
     classify(ctx, by_id, res["fails"])
     ctx.nontrivial = {it["id"] for it in its if len(it["cands"]) > 1}
